@@ -415,9 +415,9 @@ def judge(ctx, src, r, stream, hist, check_mm=True):
 def run(ctx):
     rng = ctx.rng
     div = int(os.environ.get("VERIF_C05_DIV", "1"))   # debugging aid: shrink every stream
-    nrand = ctx.scale(1200, 40000) // div
-    ntemp = max(1, ctx.scale(20, 500) // div)
-    nmal = max(1, ctx.scale(5, 120) // div)
+    nrand = ctx.scale(1000, 40000) // div
+    ntemp = max(1, ctx.scale(15, 500) // div)
+    nmal = max(1, ctx.scale(4, 120) // div)
     progs = []     # (stream, src, features)
     for _ in range(nrand):
         size = rng.choice([10, 20, 30, 45, 60])
@@ -446,7 +446,7 @@ def run(ctx):
     for _ in range(nmal):
         for name, src in malformed(rng):
             progs.append(("malformed:" + name, src, {}))
-    for _ in range(ctx.scale(120, 3000) // div):
+    for _ in range(ctx.scale(100, 3000) // div):
         g = Gen5(rng, size=rng.choice([15, 30]), err_rate=0.15, exits=0.4)
         parts = [g.fun_def() for _ in range(rng.randrange(0, 2))]
         parts += [g.stmt(0) for _ in range(rng.randrange(2, 6))]
